@@ -910,7 +910,7 @@ func TestVerifC15(t *testing.T) {
 	vw.Stat(fmt.Sprintf("variant.fix16=%v", fix16), 1)
 	vw.Stat(fmt.Sprintf("variant.fix17=%v", fix17), 1)
 
-	ncases := vw.Scale(260, 12000)
+	ncases := vw.Scale(400, 12000)
 	nops := 12
 	envs := make([]*c15env, ncases)
 	var wg sync.WaitGroup
